@@ -13,15 +13,15 @@ type weighted struct {
 var profiles = map[string][]weighted{
 	"safety": {{"apply", 30}, {"tick", 8}, {"isolate", 7}, {"partition", 6}, {"oneway", 3}, {"heal", 9}, {"crash", 6}, {"crashop", 6},
 		{"restart", 7}, {"restartall", 1}, {"lossy", 3}, {"snapshot", 3}, {"addvoter", 2}, {"addnonvoter", 1}, {"demote", 1}, {"remove", 2},
-		{"transfer", 3}, {"verify", 2}, {"barrier", 2}, {"reload", 2}, {"shutdown", 1}, {"stalesuffix", 1}, {"lagcompact", 1}, {"inheritedtail", 1}, {"join", 2}},
+		{"transfer", 3}, {"verify", 2}, {"barrier", 2}, {"reload", 2}, {"shutdown", 1}, {"stalesuffix", 1}, {"lagcompact", 1}, {"inheritedtail", 1}, {"join", 2}, {"flakyreads", 3}},
 	"election": {{"apply", 15}, {"tick", 8}, {"isolate", 12}, {"partition", 8}, {"oneway", 5}, {"heal", 12}, {"crash", 6}, {"crashop", 10},
 		{"restart", 10}, {"lossy", 6}, {"transfer", 6}, {"reload", 5}, {"addvoter", 1}, {"demote", 1}, {"remove", 2}, {"cutleader", 4}},
 	"snapshot": {{"apply", 35}, {"tick", 6}, {"lagcompact", 8}, {"stalesuffix", 6}, {"snapshot", 8}, {"crash", 6}, {"crashop", 6}, {"restart", 8},
-		{"isolate", 6}, {"heal", 8}, {"restartall", 2}, {"addvoter", 1}, {"remove", 1}, {"demote", 1}, {"transfer", 2}, {"reload", 2}, {"join", 2}},
+		{"isolate", 6}, {"heal", 8}, {"restartall", 2}, {"addvoter", 1}, {"remove", 1}, {"demote", 1}, {"transfer", 2}, {"reload", 2}, {"join", 2}, {"flakyreads", 5}},
 	"durability": {{"apply", 30}, {"tick", 6}, {"restartall", 6}, {"crash", 8}, {"restart", 10}, {"crashop", 8}, {"isolate", 8}, {"partition", 8},
-		{"heal", 10}, {"reload", 4}, {"remove", 1}, {"addvoter", 1}, {"demote", 1}, {"stalesuffix", 4}, {"transfer", 2}, {"lossy", 2}, {"cfgrestart", 5}},
+		{"heal", 10}, {"reload", 4}, {"remove", 1}, {"addvoter", 1}, {"demote", 1}, {"stalesuffix", 4}, {"transfer", 2}, {"lossy", 2}, {"cfgrestart", 5}, {"flakyreads", 3}},
 	"commit": {{"apply", 35}, {"tick", 6}, {"cutleader", 8}, {"partition", 8}, {"isolate", 4}, {"heal", 10}, {"addvoter", 2}, {"addnonvoter", 2},
-		{"demote", 2}, {"remove", 1}, {"crash", 4}, {"restart", 5}, {"barrier", 2}, {"lossy", 2}, {"join", 2}},
+		{"demote", 2}, {"remove", 1}, {"crash", 4}, {"restart", 5}, {"barrier", 2}, {"lossy", 2}, {"join", 2}, {"flakyreads", 3}},
 	"membership": {{"apply", 20}, {"tick", 6}, {"addvoter", 9}, {"addnonvoter", 6}, {"demote", 7}, {"remove", 8}, {"transfer", 6}, {"isolate", 6},
 		{"heal", 8}, {"crash", 5}, {"restart", 6}, {"partition", 4}, {"crashop", 4}, {"reload", 2}, {"cutleader", 2}, {"cfgrestart", 3}, {"join", 6}},
 	"clients": {{"apply", 45}, {"tick", 5}, {"barrier", 8}, {"transfer", 6}, {"isolate", 5}, {"heal", 6}, {"remove", 2}, {"demote", 1}, {"crash", 4},
@@ -29,7 +29,7 @@ var profiles = map[string][]weighted{
 	"verify": {{"verify", 25}, {"cutleader", 10}, {"partition", 8}, {"isolate", 5}, {"heal", 10}, {"apply", 15}, {"lossy", 6}, {"addnonvoter", 2},
 		{"demote", 2}, {"tick", 8}, {"transfer", 2}, {"crash", 2}, {"restart", 3}, {"demotecut", 4}},
 	"converge": {{"apply", 30}, {"tick", 5}, {"stalesuffix", 10}, {"lagcompact", 10}, {"crash", 8}, {"restart", 8}, {"isolate", 8}, {"partition", 8},
-		{"heal", 6}, {"snapshot", 5}, {"addvoter", 3}, {"restartall", 2}, {"lossy", 4}, {"crashop", 4}, {"join", 4}},
+		{"heal", 6}, {"snapshot", 5}, {"addvoter", 3}, {"restartall", 2}, {"lossy", 4}, {"crashop", 4}, {"join", 4}, {"flakyreads", 5}},
 	"futures": {{"apply", 14}, {"barrier", 7}, {"verify", 7}, {"addvoter", 3}, {"addnonvoter", 2}, {"demote", 2}, {"remove", 3}, {"snapshot", 5},
 		{"restore", 3}, {"transfer", 6}, {"getconfig", 3}, {"shutdown", 8}, {"aftershutdown", 4}, {"isolate", 5}, {"cutleader", 5}, {"heal", 6},
 		{"crash", 2}, {"restart", 5}, {"tick", 8}},
@@ -179,9 +179,14 @@ func genAction(t *rapid.T, p *Program, ws []weighted) Action {
 	case "stalesuffix":
 		a.N = oneOf(t, "suffix", 1, 2, 5, 12)
 		a.Arg = oneOf(t, "newEntries", 1, 3, 8, 20)
+		a.Set = []int{oneOf(t, "flakyReadsOnReturn", 0, 0, 3, 5)}
 	case "lagcompact":
 		a.N = oneOf(t, "writes", 3, 6, 12, 30)
 		a.Arg = rapid.IntRange(0, 1).Draw(t, "crashIt")
+	case "flakyreads":
+		a.Srv = tgt()
+		a.N = oneOf(t, "reads", 10, 20, 40, 80)
+		a.Arg = rapid.IntRange(2, 6).Draw(t, "odds")
 	case "join":
 		a.N = rapid.IntRange(0, 1).Draw(t, "asNonvoter")
 		a.Arg = oneOf(t, "joinFault", 0, 0, 0, 1, 2, 3)
